@@ -188,6 +188,7 @@ func (h *storeHarness) Run(t *testing.T, ci any) *Outcome {
 	}
 
 	for i, op := range c.Ops {
+		progressTick()
 		name := c.Names[op.G]
 		switch op.K {
 		case "new":
